@@ -92,33 +92,35 @@ def r19_2_3(ctx) -> None:
 def r19_4_5(ctx) -> None:
     eng = ctx.eng
     P = eng.prog
+    from .c05 import _resolve_local
+    import re as _re
     i2b = P.func("util:int_to_base64")
     cfg = cfg_of(i2b)
     np_ = i2b.pos_params[0]
     guard = [t for t in cfg.nodes if t.kind == "test" and isinstance(t.ast, ast.Compare) and norm(t.ast.left) == np_ and isinstance(t.ast.ops[0], ast.Lt) and const_value(t.ast.comparators[0]) == 0]
-    tb = [n for n in fn_nodes(i2b) if isinstance(n, ast.Call) and isinstance(n.func, ast.Attribute) and n.func.attr == "to_bytes"]
-    ok = bool(guard) and not can_reach_exit(cfg, succ_by_label(cfg, guard[0], "true")) and bool(tb) and cfg.dominates(guard[0], cfg.node_of(tb[0]))
+    guard += [t for t in cfg.nodes if t.kind == "test" and isinstance(t.ast, ast.Compare) and norm(t.ast.comparators[0]) == np_ and isinstance(t.ast.ops[0], ast.Gt) and const_value(t.ast.left) == 0]
+    tb = [n for n in fn_nodes(i2b) if isinstance(n, ast.Call) and isinstance(n.func, ast.Attribute) and n.func.attr == "to_bytes" and norm(n.func.value) == np_]
+    ok = bool(guard) and not can_reach_exit(cfg, succ_by_label(cfg, guard[0], "true")) and bool(tb) and cfg.node_of(tb[0]) is not None and cfg.dominates(guard[0], cfg.node_of(tb[0]))
     if ok:
         x = tb[0]
-        L = norm(x.args[0]).replace(" ", "")
+        L = _resolve_local(eng, i2b, x.args[0]).replace(" ", "") if x.args else ""
         signed = [k.value for k in x.keywords if k.arg == "signed"]
-        ok = L == f"({np_}.bit_length()+7)//8" and const_value(x.args[1]) == "big" and (not signed or is_const(signed[0], False))
-    rets = [norm(r.value) for r in fn_nodes(i2b) if isinstance(r, ast.Return)]
-    ok = ok and len(rets) == 1 and rets[0].startswith("urlsafe_b64encode(s)")
+        ok = L in (f"({np_}.bit_length()+7)//8", f"-(-{np_}.bit_length()//8)") and len(x.args) >= 2 and const_value(x.args[1]) == "big" and (not signed or is_const(signed[0], False))
+    rets = [_resolve_local(eng, i2b, r.value) for r in fn_nodes(i2b) if isinstance(r, ast.Return) and r.value is not None]
+    ok = ok and len(rets) == 1 and rets[0].startswith(f"urlsafe_b64encode({np_}.to_bytes(")
     ctx.check(ok, "R19.4", i2b, i2b.node, i2b.short, "int_to_base64 does not refuse negatives before encoding the minimal unsigned big-endian form", "raise if num < 0; to_bytes(ceil(bit_length/8), 'big'); urlsafe_b64encode",
               construct="int_to_base64")
     b2i = P.func("util:base64_to_int")
     sp = b2i.pos_params[0]
-    dd = [d for d in eng.flow._defs(b2i).get("data", []) if d[0] == "assign"]
-    okb = len(dd) == 1 and norm(dd[0][1]) == f"urlsafe_b64decode(to_bytes({sp}))"
-    rets = [r.value for r in fn_nodes(b2i) if isinstance(r, ast.Return)]
-    okb = okb and len(rets) == 1
+    D = f"urlsafe_b64decode(to_bytes({sp}))"
+    rets = [_resolve_local(eng, b2i, r.value) for r in fn_nodes(b2i) if isinstance(r, ast.Return) and r.value is not None]
+    okb = len(rets) == 1
     if okb:
-        t = norm(rets[0])
-        okb = t in ("int.from_bytes(data, 'big')", "int(''.join(['%02x' % byte for byte in buf]), 16)", "int(binascii.hexlify(data), 16)", "int(data.hex(), 16)")
-        if "buf" in t:
-            bd = [d for d in eng.flow._defs(b2i).get("buf", []) if d[0] == "assign"]
-            okb = okb and len(bd) == 1 and norm(bd[0][1]) == "struct.unpack('%sB' % len(data), data)"
+        t = rets[0]
+        okb = t in (f"int.from_bytes({D}, 'big')", f"int(binascii.hexlify({D}), 16)", f"int({D}.hex(), 16)")
+        if not okb:
+            m = _re.fullmatch(r"int\(''\.join\(\['%02x' % (\w+) for (\w+) in struct\.unpack\('%sB' % len\((.*)\), (.*)\)\]\), 16\)", t)
+            okb = bool(m) and m.group(1) == m.group(2) and m.group(3) == D and m.group(4) == D
     ctx.check(okb, "R19.4", b2i, b2i.node, b2i.short, "base64_to_int is not the unsigned big-endian decoder of the strict base64url decoding", "int(hex of urlsafe_b64decode(s), 16)",
               construct="base64_to_int")
     # R19.5
